@@ -298,3 +298,32 @@ Theorem to_tough2_twice : forall mp mp' d d', convert_to_TOUGH2 mp d = Ok d' ->
   exists d'', convert_to_TOUGH2 mp' d' = Ok d'' /\ second_conversion_spec d' d''.
 Proof. exact to_tough2_twice_lemma. Qed.
 Print Assumptions to_tough2_twice.
+
+(** ** round 6b: short output through AUTOUGH2 -> TOUGH2 -> AUTOUGH2 *)
+(** after converting to TOUGH2 and back, the short output holds exactly, in order, the block / connection requests the TOUGH2
+    conversion filed under FOFT / COFT (the short-output lists where present, else the history lists) that are grid objects or
+    bare names resolving to them; the frequency is not carried; every generator it names is in the generator list and was
+    of a supported / convertible type; the generator list is the old one filtered; history lists empty; grid the same *)
+Theorem short_round_trip : forall mp mp' sim eos d d' d'',
+  convert_to_TOUGH2 mp d = Ok d' -> convert_to_AUTOUGH2 mp' sim eos d' = Ok d'' -> short_round_trip_spec d d''.
+Proof. exact short_round_trip_lemma. Qed.
+Print Assumptions short_round_trip.
+(** non-empty short-output lists of grid objects come back unchanged, and the conversion back exists whenever SOLVR is well typed *)
+Theorem short_objects_round_trip : forall mp mp' sim eos d d' lb lc,
+  convert_to_TOUGH2 mp d = Ok d' -> solver_ok d ->
+  so_block (short_output d) = Some lb -> so_conn (short_output d) = Some lc -> lb <> [] -> lc <> [] ->
+  Forall (fun it => is_block it = true) lb -> Forall (fun it => is_conn it = true) lc ->
+  exists d'', convert_to_AUTOUGH2 mp' sim eos d' = Ok d'' /\
+    so_block (short_output d'') = Some lb /\ so_conn (short_output d'') = Some lc.
+Proof. exact short_objects_round_trip_lemma. Qed.
+Print Assumptions short_objects_round_trip.
+(** the example AUTOUGH2 model makes the round trip: its short-output block comes back, its frequency does not *)
+Theorem ex_short_round_trip :
+  on_ok (convert_to_TOUGH2 false ex_au) (fun d' =>
+    on_ok (convert_to_AUTOUGH2 false (s2l default_simulator) (s2l default_eos) d') (fun d'' =>
+      match so_block (short_output d''), so_freq (short_output d''), so_freq (short_output ex_au) with
+      | Some [IBlock a], None, Some _ => str_eqb a (s2l "  a 1")
+      | _, _, _ => false
+      end)) = true.
+Proof. exact ex_short_round_trip_lemma. Qed.
+Print Assumptions ex_short_round_trip.
